@@ -1,5 +1,5 @@
 """C16 — tasks are offered and executed only where their requirements hold."""
-import re, json, random
+import re, json, random, copy
 from . import common, projgen, projcheck, projrun, clirun
 
 PROF = projgen.profile(n_builders=(1, 3), n_apps=(1, 3), p_tasks=0.75, p_task_fail=0.3, p_task_killed=0.15, p_cli_builders=0.0, p_cli_apps=0.0,
@@ -49,6 +49,57 @@ def gen_scenario(seed, i):
     if rng.random() < 0.4:
         # a wider generate-only run first: the task run is then served from its cache (which lists every build of the wide run)
         sc["warmup"] = {"args": {k: v for k, v in a.items() if k in ("select", "disable", "define")}, "flags": {"generate_only": True}}
+    return sc
+
+
+def directed_scenario(seed, i):
+    """a small project in which the requested task IS defined and runnable for every selected build, so that what the commands do
+    decides: 1-3 commands, one of them possibly failing (`FAILME`) or killed by a signal (`KILLME`, with / without `ignore_ctrl_c`),
+    on the root context / a builder / an app; 1-3 builders x 1-3 apps; -m, -k N, -G, build: true|false, ninja's verdict"""
+    rng = random.Random(seed * 8863 + i)
+    nb, na = rng.randint(1, 3), rng.randint(1, 3)
+    cmds = [f"step{j} ${{builder}} ${{app}}" for j in range(rng.randint(1, 3))]
+    bad = rng.choice(["", "", " FAILME", " FAILME", " KILLME", " KILLME"])
+    per_builder = bad and rng.random() < 0.5          # the command fails for some builders only
+    k = rng.randrange(len(cmds))
+    cmds[k] += (" ${BADNESS}" if per_builder else bad)
+    task = {"cmd": cmds, "build": rng.random() < 0.5}
+    if rng.random() < 0.4:
+        task["ignore_ctrl_c"] = True
+    ctx = {"name": "default", "env": {"bindir": "${build-dir}/out/${builder}/${app}", "BADNESS": ""},
+           "rules": [{"name": "CC", "in": "c", "out": "o", "cmd": "cc -c ${in} -o ${out}"}, {"name": "LINK", "in": "o", "cmd": "ld ${in} -o ${out}"}]}
+    builders = [{"name": f"b{j}", "parent": "default"} for j in range(nb)]
+    for b in builders:
+        if per_builder and rng.random() < 0.7:
+            b["env"] = {"BADNESS": bad.strip()}
+    apps = [{"name": f"a{j}", "sources": [f"a{j}.c"]} for j in range(na)]
+    where = rng.choice(["context", "context", "builder", "app"])
+    if where == "context":
+        ctx["tasks"] = {"dt": task}
+    elif where == "builder":
+        for b in builders:
+            b["tasks"] = {"dt": copy.deepcopy(task)}
+    else:
+        for a in apps:
+            a["tasks"] = {"dt": copy.deepcopy(task)}
+    p = {"files": {"laze-project.yml": [{"contexts": [ctx], "builders": builders, "apps": apps}]}, "args": {}}
+    a = {}
+    fl = {}
+    r = rng.random()
+    if r < 0.4:
+        a = {"builders": [rng.choice(builders)["name"]], "apps": [rng.choice(apps)["name"]]}
+    elif r < 0.6:
+        a = {"builders": [b["name"] for b in rng.sample(builders, rng.randint(1, nb))]}
+    if rng.random() < 0.6 or not (a.get("builders") and a.get("apps")):
+        fl["multiple"] = True
+    if rng.random() < 0.7:
+        fl["keep_going"] = rng.choice([0, 1, 2, 3])
+    if rng.random() < 0.15:
+        fl["generate_only"] = True
+    inv = {"args": a, "flags": fl, "task": "dt", "task_args": rng.choice([[], [], ["x"]]), "ninja_rc": rng.choice([0, 0, 0, 1, "kill"])}
+    sc = {"project": p, "invocations": [inv], "directed": True}
+    if rng.random() < 0.3:
+        sc["warmup"] = {"args": {}, "flags": {"generate_only": True}}
     return sc
 
 
@@ -181,8 +232,10 @@ def run(chk):
                 "sh that log cwd/exports/argv; oracle from the dumped task availability: none runnable => failure, several runnable without -m => "
                 "refusal, build first with exactly the runnable matches' outputs, keep-going cut-off, exit status; model compared on spawn list + "
                 "exit status; non-trivial = >=2 selected builds define the task with different availability/content; distinct by scenario hash")
-    scs = [gen_scenario(chk.seed, i) for i in range(n)]
+    scs = [gen_scenario(chk.seed, i) for i in range(n)] + [directed_scenario(chk.seed, i) for i in range(n // 4)]
     for sc, step in common.parallel_map(worker, scs):
+        if sc.get("directed"):
+            chk.count("directed:" + ("killed" if "KILLME" in json.dumps(sc["project"]) else "failing" if "FAILME" in json.dumps(sc["project"]) else "plain"))
         judge(chk, sc, step)
     chk.assumptions = ["process spawning, signals (ignore_ctrl_c) are not modelled; sh and ninja are stand-ins found through PATH"]
     return chk.finish()
